@@ -22,7 +22,7 @@ REQUIRED = [
     "pair:partial-fwd", "pair:partial-rev", "pair:full", "pair:knot-aligned",
     "judged:closest:on-curve", "judged:closest:near", "closest:multimodal-judged", "closest:far-weak",
     "judged:edge-points", "judged:edge-length-exact", "judged:edge-length-approx", "edge:against-curve-direction",
-    "judged:edge-after-vertex-move",
+    "judged:edge-after-vertex-move", "pair:start-parameter-exactly-zero-inside-nonzero-bounds",
     "edge:along-curve-direction", "spacing:uneven",
 ]
 MIN_KEYS = 150
@@ -109,7 +109,7 @@ def _gen_pairs(rng, spec, nknots):
         if rng.random() < 0.45 and not none_args:
             fa, fc = fc, fa
         fm = fa + (fc - fa) * rng.uniform(0.1, 0.9)
-        pairs.append({"a": fa, "c": fc, "m": fm, "none_args": none_args})
+        pairs.append({"a": fa, "c": fc, "m": fm, "none_args": none_args, "zero_a": (not none_args) and rng.random() < 0.25})
     return pairs
 
 
@@ -334,6 +334,12 @@ def _judge_lengths(ctx, env, pairs):
     for pr in pairs:
         a, c = _par(ref, pr["a"]), _par(ref, pr["c"])
         m = None if pr["m"] is None else _par(ref, pr["m"])
+        if pr.get("zero_a") and kind != "discrete" and ref.lo < -1e-9 and ref.hi > 1e-9 and abs(c) > 0.02 * (ref.hi - ref.lo):
+            # the parameter value 0.0 itself, inside bounds that do not start at 0
+            a = 0.0
+            if m is not None:
+                m = c * 0.4
+            ctx.count("pair:start-parameter-exactly-zero-inside-nonzero-bounds")
         rev = (a > c)
         full = {a, c} == {ref.lo, ref.hi}
         aligned = False
